@@ -150,6 +150,9 @@ pub struct Eng {
     pub huge_ok: bool,
     pub merge_outputs: BTreeSet<u64>,
     pub last_merge: Option<MergeInfo>,
+    /// keys whose last write failed: the other state the key may turn out to be in (a failed
+    /// operation may or may not have taken effect, and which of the two can change at a restart)
+    pub alt: HashMap<Vec<u8>, Vec<Option<Vec<u8>>>>,
 }
 
 fn operr(e: &OpErr) -> String {
@@ -174,6 +177,7 @@ impl Eng {
             huge_ok: false,
             merge_outputs: BTreeSet::new(),
             last_merge: None,
+            alt: HashMap::new(),
         }
     }
 
@@ -218,8 +222,85 @@ impl Eng {
         if scan::rec_size(&k, Some(&v)) > 8192 {
             self.f.big_entries += 1;
         }
+        self.alt.remove(&k);
         self.model.insert(k, v);
         Ok(())
+    }
+
+    /// A set or delete during which one file-system call on a data file fails (create, write or
+    /// fsync; ENOSPC or EIO). If the operation reports the failure, the key is read back at once: it
+    /// must hold what it held before or what the operation wanted to write; the model adopts what
+    /// is read and remembers the other state as a possibility (cleared by the next successful write
+    /// of the key). Returns whether the fault fired.
+    pub fn do_faulty_op(&mut self) -> Result<bool, Fail> {
+        let ki = self.r.usize_below(self.keys.len());
+        let k = self.keys[ki].clone();
+        let is_set = self.r.chance(7, 10);
+        let nth = self.r.below(2) as i64;
+        let errno = if self.r.chance(1, 2) { libc::ENOSPC } else { libc::EIO };
+        self.vcount += 1;
+        let size = draw_value_size(&mut self.r, self.big_ok);
+        let v = make_value(&mut self.r, self.vcount, size);
+        self.trace.push(format!("{} k{} with one failing call", if is_set { "set" } else { "del" }, ki));
+        crate::shim::log_reset();
+        crate::shim::record_data(false);
+        crate::shim::watch(Some(&self.dir));
+        crate::shim::fail(crate::shim::C_WRITE | crate::shim::C_CREATE | crate::shim::C_FSYNC, crate::shim::F_DATA, nth, errno);
+        let res: Result<(), OpErr> = if is_set { self.st().set(&k, &v) } else { self.st().del(&k).map(|_| ()) };
+        let hit = crate::shim::fail_hit().is_some();
+        crate::shim::fail_off();
+        crate::shim::watch(None);
+        crate::shim::log_reset();
+        let before = self.model.get(&k).cloned();
+        let wanted = if is_set { Some(v.clone()) } else { None };
+        match res {
+            Ok(()) => {
+                // not this engine's subject whether a failure may go unreported (that is C20's)
+                self.alt.remove(&k);
+                match wanted {
+                    Some(v) => {
+                        self.model.insert(k, v);
+                    }
+                    None => {
+                        if before.is_some() {
+                            self.deleted_once.insert(k.clone());
+                        }
+                        self.model.remove(&k);
+                    }
+                }
+            }
+            Err(_) => {
+                let now = match self.st().get(&k) {
+                    Ok(g) => g,
+                    Err(e) => return fail("get-error", format!("get({}) right after a failed {} returned {}", show(&k), if is_set { "set" } else { "del" }, operr(&e))),
+                };
+                let other = if now == before {
+                    wanted
+                } else if now == wanted {
+                    before.clone()
+                } else {
+                    return fail("get-wrong-value", format!("after a failed {} key {} reads neither what it held before nor what the operation wanted to write", if is_set { "set" } else { "del" }, show(&k)));
+                };
+                match now {
+                    Some(v) => {
+                        self.model.insert(k.clone(), v);
+                    }
+                    None => {
+                        self.model.remove(&k);
+                    }
+                }
+                // earlier failed writes of the same key stay possible: each may have left a record
+                // that a restart will find, and which of them comes last is not known here
+                let a = self.alt.entry(k).or_default();
+                if !a.contains(&other) {
+                    a.push(other);
+                }
+                if !a.contains(&before) {
+                    a.push(before);
+                }
+            }
+        }
+        Ok(hit)
     }
 
     pub fn check_get(&mut self, k: &[u8], when: &str) -> Result<(), Fail> {
@@ -228,6 +309,22 @@ impl Eng {
         match got {
             Err(e) => fail("get-error", format!("{}: get({}) returned {}", when, show(k), operr(&e))),
             Ok(g) if g == exp => Ok(()),
+            Ok(g) if self.alt.get(k).map(|a| a.contains(&g)).unwrap_or(false) => {
+                // a failed write of this key has taken effect after all (or no longer has)
+                let a = self.alt.entry(k.to_vec()).or_default();
+                if !a.contains(&exp) {
+                    a.push(exp);
+                }
+                match g {
+                    Some(v) => {
+                        self.model.insert(k.to_vec(), v);
+                    }
+                    None => {
+                        self.model.remove(k);
+                    }
+                }
+                Ok(())
+            }
             Ok(g) => {
                 let sig = match (&exp, &g) {
                     (None, Some(_)) => "get-resurrected",
@@ -271,6 +368,7 @@ impl Eng {
         let exp = self.model.contains_key(&k);
         let got = self.st().del(&k);
         self.f.dels += 1;
+        self.alt.remove(&k);
         match got {
             Err(e) => fail("del-error", format!("del({}) returned {}", show(&k), operr(&e))),
             Ok(b) if b == exp => {
